@@ -722,7 +722,9 @@ func main() {
 			if d.static == 0 {
 				n = refGroup(d, p, &members, &lineOf)
 			}
-			if d.static == 0 && d.pol.isFixed && d.pol.fixed >= n {
+			// An EMPTY group has no i-th node for any i: the statement's "fixed(i) out of range" clause is read as
+			// relative to a non-empty group (an empty group selects nothing whatever the policy; nothing is silently changed).
+			if d.static == 0 && d.pol.isFixed && n > 0 && d.pol.fixed >= n {
 				expKinds |= kindBit[kFixedBeyond]
 				firstKind = kFixedBeyond
 			}
@@ -957,7 +959,7 @@ func replay(r *vlib.Run, defs []*def, pools []*pool) {
 	if d.static == 0 {
 		n = refGroup(d, p, &m, &lo)
 	}
-	if d.static == 0 && d.pol.isFixed && d.pol.fixed >= n {
+	if d.static == 0 && d.pol.isFixed && n > 0 && d.pol.fixed >= n {
 		exp |= kindBit[kFixedBeyond]
 	}
 	if exp != 0 {
